@@ -107,6 +107,7 @@ func (info *decodeInfo) decodeCharString(code []byte) (*Glyph, error) {
 	stage := stageStart
 
 	var storage []float64
+	numCalls := 0
 	cmdStack := [][]byte{code}
 	for len(cmdStack) > 0 {
 		cmdStack, code = cmdStack[:len(cmdStack)-1], cmdStack[len(cmdStack)-1]
@@ -658,6 +659,13 @@ func (info *decodeInfo) decodeCharString(code []byte) (*Glyph, error) {
 				if len(cmdStack) > 10 {
 					return nil, invalidSince("maximum call stack size exceeded")
 				}
+				// The nesting limit alone allows a few hundred bytes of
+				// subroutines, each calling the next one several times, to
+				// keep the decoder busy for years.
+				numCalls++
+				if numCalls > maxSubrCalls {
+					return nil, invalidSince("too many subroutine calls")
+				}
 
 				var err error
 				if op == t2callsubr {
@@ -906,6 +914,11 @@ const (
 	t2hflex1     t2op = 0x0c24
 	t2flex1      t2op = 0x0c25
 )
+
+// maxSubrCalls is the maximal number of subroutine calls executed for a
+// single charstring.  Charstrings are at most 65535 bytes long and a call
+// takes at least two bytes, so this is more than any real glyph needs.
+const maxSubrCalls = 65536
 
 var (
 	errStackOverflow     = invalidSince("type 2 stack overflow")
